@@ -11,7 +11,7 @@ import ast
 import itertools
 
 from ..core import Rule, AnalysisError, norm
-from .. import pyfront, dtable, cfold, rx
+from .. import pyfront, dtable, cfold, rx, pyutil
 from . import c14
 
 WD = "python/digital_rf/watchdog_drf.py"
@@ -182,44 +182,95 @@ def r3_no_tmp_no_dirs(repo=None):
     return r
 
 
+def _dispatch_flags(m, f):
+    """The two Boolean locals of dispatch that record whether the source / destination path matched."""
+    consts = {}
+    for n in pyfront.walk_no_nested(f):
+        if isinstance(n, ast.Assign) and len(n.targets) == 1 and isinstance(n.targets[0], ast.Name) \
+                and isinstance(n.value, ast.Constant) and isinstance(n.value.value, bool):
+            consts.setdefault(n.targets[0].id, []).append(n)
+    src = dest = None
+    for name, nodes in consts.items():
+        for n in nodes:
+            if n.value.value is True:
+                ctx = " ".join(norm(ast.unparse(a.test)) for a in _ancestors(m, n) if isinstance(a, ast.If))
+                body = " ".join(norm(ast.unparse(x)) for a in _ancestors(m, n) if isinstance(a, ast.If) for x in a.body)
+                if "dest_path" in ctx + body and "src_path" not in ctx:
+                    dest = name
+                elif "src_path" in ctx + body:
+                    src = name
+    return src, dest
+
+
+def _ancestors(m, n):
+    p = m.parents.get(n)
+    while p is not None:
+        yield p
+        p = m.parents.get(p)
+
+
 def r4_move_conversion(repo=None):
     r = Rule("C15.R4", "a rename into the grammar is delivered as creation, a rename out of it as deletion")
     m = pyfront.mod("watchdog_drf", repo)
     q = H + ".dispatch"
     f = m.fn(q)
-    found = {"del": False, "cre": False, "drop": False}
-    for n in ast.walk(f):
-        if isinstance(n, ast.If):
-            t = norm(ast.unparse(n.test))
-            if t == "src_match and (not dest_match)" or t == "src_match and not dest_match":
-                b = n.body
-                if len(b) == 1 and norm(ast.unparse(b[0])) == "event = FileDeletedEvent(event.src_path)":
-                    found["del"] = True
-                for o in n.orelse:
-                    if isinstance(o, ast.If) and norm(ast.unparse(o.test)) in ("dest_match and (not src_match)", "dest_match and not src_match") \
-                            and len(o.body) == 1 and norm(ast.unparse(o.body[0])) == "event = FileCreatedEvent(event.dest_path)":
-                        found["cre"] = True
-            if t in ("not src_match and (not dest_match)", "not src_match and not dest_match") and len(n.body) == 1 and isinstance(n.body[0], ast.Return):
-                found["drop"] = True
-    msgs = {"del": "tracked -> non-matching rename becomes FileDeletedEvent(src)", "cre": "non-matching -> tracked rename (the writer's "
-            "finalizing rename of a tmp. file) becomes FileCreatedEvent(dest)", "drop": "events matching neither path are dropped"}
-    for k, ok in found.items():
-        if ok:
-            r.ok("%s:%s %s" % (m.rel, f.lineno, q), msgs[k])
+    g = m.cfg(q)
+    S, D = _dispatch_flags(m, f)
+    if not S or not D or S == D:
+        raise AnalysisError("%s: the source-matched / destination-matched flags were not recognised (%s, %s)" % (q, S, D))
+    IN, idx = pyutil.flag_states(g, (S, D))
+
+    def nodes_assigning(call, attr):
+        return [n for n in g.nodes if isinstance(n.ast, ast.Assign) and isinstance(n.ast.value, ast.Call)
+                and pyfront.call_name(n.ast.value) == call and n.ast.value.args and norm(ast.unparse(n.ast.value.args[0])) == "event." + attr
+                and norm(ast.unparse(n.ast.targets[0])) == "event"]
+    dels = nodes_assigning("FileDeletedEvent", "src_path")
+    cres = nodes_assigning("FileCreatedEvent", "dest_path")
+    wrong = [n for n in g.nodes if isinstance(n.ast, ast.Assign) and isinstance(n.ast.value, ast.Call)
+             and pyfront.call_name(n.ast.value) in ("FileDeletedEvent", "FileCreatedEvent", "FileMovedEvent", "FileModifiedEvent")
+             and n not in dels and n not in cres]
+    for n in wrong:
+        r.violation(m.rel, q, norm(ast.unparse(n.ast)), "an event is rewritten in a way other than tracked->other = deleted(src) / "
+                    "other->tracked = created(dest)", line=n.line)
+    disp = [n for n in g.nodes if any(isinstance(c.func, ast.Attribute) and c.func.attr == "dispatch" and isinstance(c.func.value, ast.Call)
+                                      and pyfront.call_name(c.func.value) == "super" for c in pyfront.node_calls(n))]
+    if not disp:
+        raise AnalysisError("%s: final super(...).dispatch(event) not found" % q)
+
+    def states(n):
+        return IN.get(n.id, set())
+    want = {"del": (True, False), "cre": (False, True)}
+    for kind, nodes in (("del", dels), ("cre", cres)):
+        label = "tracked -> non-matching rename becomes FileDeletedEvent(src)" if kind == "del" else \
+            "non-matching -> tracked rename (the writer's finalizing rename of a tmp. file) becomes FileCreatedEvent(dest)"
+        if not nodes:
+            r.violation(m.rel, q, "move conversion `%s` missing" % kind, "expected: " + label, line=f.lineno)
+            continue
+        sts = set()
+        for n in nodes:
+            sts |= {(bool(s[idx[S]]), bool(s[idx[D]])) for s in states(n)}
+        if sts == {want[kind]}:
+            r.ok("%s:%s %s" % (m.rel, nodes[0].line, q), label + " (reached exactly when %s=%s, %s=%s)" % (S, want[kind][0], D, want[kind][1]))
         else:
-            r.violation(m.rel, q, "move conversion `%s` missing or altered" % k, "expected: " + msgs[k], line=f.lineno)
-    # the matched flags are computed from regex matches of src/dest path against the same regex list
-    src = norm(ast.unparse(f))
-    if src.count("for r in self.regexes:") == 2 and "m = r.match(src_path)" in src and "m = r.match(dest_path)" in src:
-        r.ok("%s:%s %s" % (m.rel, f.lineno, q), "src_path and dest_path are each matched against every registered regex")
+            r.violation(m.rel, q, "%s under %s" % (norm(ast.unparse(nodes[0].ast)), sorted(sts)),
+                        "the conversion is applied in the wrong match situation (expected only %s=%s, %s=%s)" % (
+                            S, want[kind][0], D, want[kind][1]), line=nodes[0].line)
+    # completeness: a moved event with exactly one matching path cannot reach the final dispatch without conversion
+    conv = [n.id for n in dels + cres]
+    final_states = set()
+    for n in disp:
+        final_states |= {(bool(s[idx[S]]), bool(s[idx[D]])) for s in states(n)}
+    if (False, False) in final_states:
+        r.violation(m.rel, q, "dispatch reachable with neither path matching", "events for unrelated paths are delivered", line=disp[0].line)
     else:
-        r.violation(m.rel, q, "matching loops", "source and destination are not matched against the same regex list", line=f.lineno)
-    final = [c for c in ast.walk(f) if isinstance(c, ast.Call) and norm(ast.unparse(c)) == "super(RegexMatchingEventHandler, self).dispatch(event)"]
-    if final:
-        r.ok("%s:%s %s" % (m.rel, final[0].lineno, q), "the (possibly converted) event is dispatched to on_created/on_deleted/...")
+        r.ok("%s:%s %s" % (m.rel, disp[0].line, q), "events matching neither path are dropped before the final dispatch")
+    # both paths are matched against the handler's regexes (directly or through a helper)
+    text = norm(ast.unparse(f)) + " ".join(norm(ast.unparse(h)) for h, c, b in pyutil.local_helpers(m, f, depth=1))
+    if ".regexes" in text and ".match(" in text and "event.src_path" in text and "event.dest_path" in text:
+        r.ok("%s:%s %s" % (m.rel, f.lineno, q), "src_path and dest_path are each matched against the registered regexes")
     else:
-        r.violation(m.rel, q, "final dispatch", "converted event is not dispatched", line=f.lineno)
-    r.guard(5)
+        r.violation(m.rel, q, "matching", "source and destination are not matched against the registered regex list", line=f.lineno)
+    r.guard(4)
     return r
 
 
@@ -229,27 +280,67 @@ def r5_inclusive_window(repo=None):
     q = H + ".dispatch"
     f = m.fn(q)
     g = m.cfg(q)
-    conds = {n.label: n for n in g.nodes if n.kind == "cond"}
-    for lab, what in (("time < self.starttime", "before the start"), ("time > self.endtime", "after the end")):
-        n = conds.get(lab)
-        if n is None:
-            other = [l for l in conds if "time" in l and ("starttime" in l if "start" in lab else "endtime" in l) and "None" not in l]
-            r.violation(m.rel, q, "window test `%s` not found (found %s)" % (lab, other), "the window must drop only events strictly %s: "
-                        "a file whose name timestamp equals the bound belongs to the window (listing is inclusive)" % what, line=f.lineno)
+    # the time variable: assigned from datetime.timedelta(seconds=<secs>, milliseconds=<frac>)
+    tv = None
+    for n in pyfront.walk_no_nested(f):
+        if isinstance(n, ast.Assign) and isinstance(n.value, ast.Call) and pyfront.call_name(n.value) == "datetime.timedelta" \
+                and isinstance(n.targets[0], ast.Name):
+            kw = {k.arg: k.value for k in n.value.keywords}
+            if set(kw) == {"seconds", "milliseconds"}:
+                tv = n.targets[0].id
+                srcs = {}
+                for part, gname in (("seconds", "secs"), ("milliseconds", "frac")):
+                    v = kw[part]
+                    defs = [x.value for x in pyfront.walk_no_nested(f) if isinstance(x, ast.Assign) and isinstance(v, ast.Name)
+                            and isinstance(x.targets[0], ast.Name) and x.targets[0].id == v.id]
+                    srcs[part] = any(("group('%s')" % gname) in norm(ast.unparse(d)) for d in defs)
+                if all(srcs.values()):
+                    r.ok("%s:%s %s" % (m.rel, n.lineno, q), "`%s` is built from groups secs/frac of the match that decided" % tv)
+                else:
+                    r.violation(m.rel, q, norm(ast.unparse(n)), "window time is not built from the secs/frac groups of the name", line=n.lineno)
+    if tv is None:
+        cmp_bounds = [n for n in g.nodes if n.kind == "cond" and isinstance(n.ast, ast.Compare)
+                      and not isinstance(n.ast.ops[0], (ast.Is, ast.IsNot))
+                      and any(b in norm(ast.unparse(n.ast)) for b in ("self.starttime", "self.endtime"))]
+        if not cmp_bounds:
+            for key in ("start", "end"):
+                r.violation(m.rel, q, "no comparison of a name timestamp with self.%stime" % key, "the %s of the time window is not applied "
+                            "to the exact name timestamp (a rounded or pre-computed bound is used instead): events within the rounding "
+                            "error of the bound are accepted or dropped differently from the listing, which compares exact timedeltas" % key,
+                            line=f.lineno)
+            r.guard(2)
+            return r
+        raise AnalysisError("%s: construction of the name timestamp (datetime.timedelta(seconds=, milliseconds=)) not found" % q)
+    found = {"start": False, "end": False}
+    for n in g.nodes:
+        if n.kind != "cond" or not isinstance(n.ast, ast.Compare) or len(n.ast.ops) != 1:
             continue
-        ts = [b for b, l in g.succ[n.id] if l == "T"]
-        rets = [x for x in g.nodes if x.kind == "return" and x.id in g.reach(ts, skip_labels=("exc",))]
-        disp = [x for x in g.nodes if "super(RegexMatchingEventHandler, self).dispatch(event)" in x.label]
-        if rets and not any(d.id in g.reach(ts, skip_labels=("exc",)) for d in disp):
-            r.ok("%s:%s %s `%s`" % (m.rel, n.line, q, lab), "strict comparison: events exactly on the bound are delivered")
-        else:
-            r.violation(m.rel, q, lab, "window test does not drop the event", line=n.line)
-    src = norm(ast.unparse(f))
-    if "time = datetime.timedelta(seconds=secs, milliseconds=msecs)" in src and "secs = int(match.group('secs'))" in src \
-            and "msecs = int(match.group('frac'))" in src:
-        r.ok("%s:%s %s" % (m.rel, f.lineno, q), "time is built from groups secs/frac of the match that decided")
-    else:
-        r.violation(m.rel, q, "time construction", "window time is not the name timestamp of the matching regex", line=f.lineno)
+        l, rgt, op = norm(ast.unparse(n.ast.left)), norm(ast.unparse(n.ast.comparators[0])), n.ast.ops[0]
+        if isinstance(op, (ast.Is, ast.IsNot)):
+            continue
+        for bound, key, good in (("self.starttime", "start", ((tv, ast.Lt, "self.starttime"), ("self.starttime", ast.Gt, tv))),
+                                 ("self.endtime", "end", ((tv, ast.Gt, "self.endtime"), ("self.endtime", ast.Lt, tv)))):
+            if bound not in (l, rgt):
+                continue
+            if any(l == a_ and isinstance(op, o_) and rgt == b_ for a_, o_, b_ in good):
+                ts = [b for b, lab in g.succ[n.id] if lab == "T"]
+                treach = g.reach(ts, skip_labels=("exc",))
+                rets = [x for x in g.nodes if x.kind == "return" and x.id in treach]
+                if rets:
+                    found[key] = True
+                    r.ok("%s:%s %s `%s`" % (m.rel, n.line, q, n.label), "strict comparison: events exactly on the bound are delivered")
+                else:
+                    r.violation(m.rel, q, n.label, "window test does not drop the event", line=n.line)
+            else:
+                found[key] = True
+                r.violation(m.rel, q, n.label, "the window must drop only events strictly outside [start, end] measured on the exact name "
+                            "timestamp `%s`: a file whose name timestamp equals the bound belongs to the window (the listing is "
+                            "inclusive)" % tv, line=n.line)
+    for key, ok_ in found.items():
+        if not ok_:
+            r.violation(m.rel, q, "no comparison of the name timestamp `%s` with self.%stime" % (tv, key), "the %s of the time window is not "
+                        "applied to the exact name timestamp (e.g. a rounded or pre-computed bound is used instead): events within the "
+                        "rounding error of the bound are accepted or dropped differently from the listing" % key, line=f.lineno)
     # group uses: defined in every regex that can reach the use, or inside a try catching IndexError
     fo = cfold.Folder(repo)
     import re as _re
